@@ -1,16 +1,52 @@
 package main
 
 import (
+	"bytes"
+	"sync"
+	"unsafe"
+
 	"github.com/pion/rtp"
 )
 
 // C01 — RTP packet encode/decode round trip is lossless.
+
+// caBuildViaAPI builds the packet through the public API only (struct fields with the profile
+// preset, then SetExtension per element); nil when the description has duplicate ids or the API
+// refuses an element (then only the hook can build it).
+func caBuildViaAPI(in *PacketIn) *rtp.Packet {
+	seen := map[uint8]bool{}
+	for _, e := range in.Exts {
+		if seen[e.ID] {
+			return nil
+		}
+		seen[e.ID] = true
+	}
+	if !in.H.Extension || len(in.Exts) == 0 {
+		return nil
+	}
+	pkt := &rtp.Packet{Header: in.H, Payload: cloneBytes(in.Payload), PaddingSize: in.PadSize}
+	pkt.Header.CSRC = append([]uint32(nil), in.H.CSRC...)
+	pkt.Header.Extensions = nil
+	for _, e := range in.Exts {
+		if err := pkt.Header.SetExtension(e.ID, cloneBytes(e.Payload)); err != nil {
+			return nil
+		}
+	}
+	return pkt
+}
 
 // observeC01 writes: size marshal unFresh unDirty hsize hmarshal hun
 func observeC01(c *Case, in *PacketIn, prev []byte) {
 	writePacketIn(&c.I, in)
 	c.I.Bytes(prev)
 	pkt := in.Build()
+	if c.R.Chance(1, 3) {
+		// the same value reached through the public API instead of the hook
+		if q := caBuildViaAPI(in); q != nil {
+			pkt = q
+			c.Tag("built=api")
+		}
+	}
 	var size, hsize int
 	var bs, hb []byte
 	var err, herr error
@@ -62,6 +98,51 @@ func observeC01(c *Case, in *PacketIn, prev []byte) {
 			c.O.Nat(n)
 		}
 	}
+}
+
+// caWithDupes makes an element id occur twice now and then (legal on the wire for both RFC 8285
+// forms and reachable through Unmarshal; the accessors see the first, the encoder writes both).
+func caWithDupes(c *Case, p *PacketIn) {
+	if len(p.Exts) >= 2 && p.H.Extension && (p.H.ExtensionProfile == 0xBEDE || p.H.ExtensionProfile == 0x1000) && c.R.Chance(1, 6) {
+		i, j := c.R.Intn(len(p.Exts)), c.R.Intn(len(p.Exts))
+		if i != j {
+			p.Exts[i].ID = p.Exts[j].ID
+			c.Tag("dup-ids")
+		}
+	}
+}
+
+// caGenPrev draws what a reused receiver decoded before: nothing, a valid packet, a valid packet cut
+// short (Unmarshal fails part-way and leaves the receiver half-written), or random bytes.
+func caGenPrev(c *Case) []byte {
+	switch c.R.Intn(6) {
+	case 0:
+		return nil
+	case 1:
+		c.Tag("prev=random")
+		return c.R.Bytes(c.R.Intn(48))
+	case 2:
+		c.Tag("prev=truncated")
+		q := genPacketWF(c.R, 40).Build()
+		b, _ := q.Marshal()
+		if len(b) > 0 {
+			b = b[:c.R.Intn(len(b))]
+		}
+		return b
+	}
+	q := genPacketWF(c.R, 40).Build()
+	b, _ := q.Marshal()
+	return b
+}
+
+// caTagged reports whether the case carries the tag.
+func caTagged(c *Case, t string) bool {
+	for _, x := range c.tags {
+		if x == t {
+			return true
+		}
+	}
+	return false
 }
 
 func tagPacket(c *Case, p *PacketIn) {
@@ -152,20 +233,789 @@ func init() {
 				}
 			}
 		}
+		// exhaustive over the two bit-packed header bytes: V, P, X, CC | M, PT  (2^16 cases)
+		for b0 := 0; b0 < 256; b0++ {
+			for b1 := 0; b1 < 256; b1++ {
+				b0, b1 := b0, b1
+				x.Case(func(c *Case) {
+					p := &PacketIn{}
+					p.H.Version = uint8(b0 >> 6)
+					p.H.Padding = b0>>5&1 == 1
+					p.H.Extension = b0>>4&1 == 1
+					p.H.CSRC = make([]uint32, b0&15)
+					for i := range p.H.CSRC {
+						p.H.CSRC[i] = uint32(c.R.U64())
+					}
+					p.H.Marker = b1>>7 == 1
+					p.H.PayloadType = uint8(b1 & 127)
+					p.H.SequenceNumber = uint16(c.R.Intn(65536))
+					p.H.Timestamp = uint32(c.R.U64())
+					p.H.SSRC = uint32(c.R.U64())
+					if p.H.Extension {
+						p.H.ExtensionProfile = 0xBEDE
+						p.Exts = []ExtIn{{uint8(c.R.Range(1, 14)), c.R.Bytes(c.R.Range(1, 16))}}
+					}
+					if p.H.Padding {
+						p.PadSize = uint8(c.R.Range(1, 255))
+					}
+					p.Payload = c.R.Bytes(c.R.Intn(4))
+					c.Tag("hdrbits-exhaustive")
+					observeC01(c, p, nil)
+				})
+			}
+		}
+		// exhaustive over the element headers: one-byte id x length; two-byte id x length
+		// (quick: boundary ids, every length; thorough: every id, every length)
+		for id := 1; id <= 14; id++ {
+			for l := 1; l <= 16; l++ {
+				id, l := id, l
+				x.Case(func(c *Case) {
+					p := &PacketIn{}
+					genFixed(c.R, &p.H)
+					p.H.Extension = true
+					p.H.ExtensionProfile = 0xBEDE
+					p.Exts = []ExtIn{{uint8(id), c.R.Bytes(l)}}
+					if c.R.Bool() {
+						p.Exts = append(p.Exts, ExtIn{uint8(1 + id%14), c.R.Bytes(c.R.Range(1, 16))})
+					}
+					p.Payload = c.R.Bytes(c.R.Intn(3))
+					c.Tag("elemhdr-exhaustive")
+					observeC01(c, p, nil)
+				})
+			}
+		}
+		twoIDs := []int{1, 2, 14, 15, 16, 127, 128, 254, 255}
+		if x.Thorough() {
+			twoIDs = nil
+			for id := 1; id <= 255; id++ {
+				twoIDs = append(twoIDs, id)
+			}
+		}
+		for _, id := range twoIDs {
+			for l := 0; l <= 255; l++ {
+				id, l := id, l
+				x.Case(func(c *Case) {
+					p := &PacketIn{}
+					genFixed(c.R, &p.H)
+					p.H.Extension = true
+					p.H.ExtensionProfile = 0x1000
+					p.Exts = []ExtIn{{uint8(id), c.R.Bytes(l)}}
+					if c.R.Bool() {
+						p.Exts = append(p.Exts, ExtIn{uint8(1 + id%255), c.R.Bytes(c.R.Intn(5))})
+					}
+					p.Payload = c.R.Bytes(c.R.Intn(3))
+					c.Tag("elemhdr-exhaustive")
+					observeC01(c, p, nil)
+				})
+			}
+		}
 		maxPl := 1500
 		if x.Thorough() {
 			maxPl = 20000
 		}
-		for i, n := 0, x.N(20000, 1500000); i < n; i++ {
-			x.Case(func(c *Case) {
-				p := genPacketWF(c.R, maxPl)
-				tagPacket(c, p)
-				var prev []byte
-				if c.R.Chance(2, 3) {
-					q := genPacketWF(c.R, 40).Build()
-					prev, _ = q.Marshal()
+		if x.Thorough() {
+			// the largest extension block the 16-bit word count can describe, and one word more
+			// (outside the domain: the count wraps; correspondence only)
+			for _, words := range []int{65535, 65534, 65536, 16384} {
+				for _, kind := range []int{profLegacy, profTwo, profOne} {
+					words, kind := words, kind
+					x.Case(func(c *Case) {
+						p := &PacketIn{}
+						genFixed(c.R, &p.H)
+						p.H.Extension = true
+						switch kind {
+						case profLegacy:
+							p.H.ExtensionProfile = 0x0101
+							p.Exts = []ExtIn{{0, c.R.Bytes(4 * words)}}
+						case profTwo:
+							p.H.ExtensionProfile = 0x1000
+							for left := 4 * words; left > 0; {
+								l := 255
+								if left < 257 {
+									l = left - 2
+								}
+								if l < 0 {
+									break
+								}
+								p.Exts = append(p.Exts, ExtIn{uint8(1 + len(p.Exts)%255), c.R.Bytes(l)})
+								left -= l + 2
+							}
+						default:
+							p.H.ExtensionProfile = 0xBEDE
+							for left := 4 * words; left > 0; {
+								l := 16
+								if left < 17 {
+									l = left - 1
+								}
+								if l < 1 {
+									break
+								}
+								p.Exts = append(p.Exts, ExtIn{uint8(1 + len(p.Exts)%14), c.R.Bytes(l)})
+								left -= l + 1
+							}
+						}
+						p.Payload = c.R.Bytes(c.R.Intn(3))
+						c.Tag("ext=huge")
+						observeC01(c, p, nil)
+					})
 				}
-				observeC01(c, p, prev)
+			}
+		}
+		for i, n := 0, x.N(100000, 1500000); i < n; i++ {
+			x.Case(func(c *Case) {
+				var p *PacketIn
+				if c.R.Chance(1, 20) {
+					// outside the domain: nothing is demanded, the model must still agree
+					p = caGenPacketOdd(c.R, 60)
+					c.Tag("odd")
+				} else {
+					p = genPacketWF(c.R, maxPl)
+					caWithDupes(c, p)
+				}
+				tagPacket(c, p)
+				observeC01(c, p, caGenPrev(c))
+			})
+		}
+	})
+}
+
+// ---------------------------------------------------------------------------------------------
+// C04 — MarshalTo honours the destination buffer contract.
+
+// caFillDst returns a destination of n bytes with the given prior contents
+// (0: 0x00, 1: 0xFF, 2: 0xEE, 3: random).
+func caFillDst(r *Rand, n, fill int) []byte {
+	if n < 0 {
+		n = 0
+	}
+	switch fill {
+	case 0:
+		return make([]byte, n)
+	case 1:
+		return bytes.Repeat([]byte{0xFF}, n)
+	case 2:
+		return bytes.Repeat([]byte{0xEE}, n)
+	}
+	return r.Bytes(n)
+}
+
+// observeC04 writes: size hsize marshal hmarshal pto pbuf hto hbuf
+func observeC04(c *Case, in *PacketIn, dst []byte) {
+	writePacketIn(&c.I, in)
+	c.I.Bytes(dst)
+	pkt := in.Build()
+	var size, hsize int
+	if try(func() { size = pkt.MarshalSize(); hsize = pkt.Header.MarshalSize() }) {
+		c.O.Tok("panic-MarshalSize")
+		return
+	}
+	c.O.Nat(size).Nat(hsize)
+	var bs, hb []byte
+	var err error
+	if try(func() { bs, err = pkt.Marshal() }) {
+		c.O.Panic()
+	} else if writeRes(&c.O, err) {
+		c.O.Bytes(bs)
+	}
+	if try(func() { hb, err = pkt.Header.Marshal() }) {
+		c.O.Panic()
+	} else if writeRes(&c.O, err) {
+		c.O.Bytes(hb)
+	}
+	var n int
+	// the destination is the tail of a larger array, so a write beyond len(dst) would be caught
+	// by the run time (index out of range), never silently absorbed by spare capacity
+	pbuf := cloneBytes(dst)
+	pbuf = pbuf[:len(pbuf):len(pbuf)]
+	if try(func() { n, err = pkt.MarshalTo(pbuf) }) {
+		c.O.Panic()
+	} else if writeRes(&c.O, err) {
+		c.O.Nat(n)
+	}
+	c.O.Bytes(pbuf)
+	hbuf := cloneBytes(dst)
+	hbuf = hbuf[:len(hbuf):len(hbuf)]
+	if try(func() { n, err = pkt.Header.MarshalTo(hbuf) }) {
+		c.O.Panic()
+	} else if writeRes(&c.O, err) {
+		c.O.Nat(n)
+	}
+	c.O.Bytes(hbuf)
+	switch {
+	case len(dst) < hsize:
+		c.Tag("dst<hdr")
+	case len(dst) < size:
+		c.Tag("hdr<=dst<size")
+	case len(dst) == size:
+		c.Tag("dst=size")
+	default:
+		c.Tag("dst>size")
+	}
+}
+
+// c04Lengths lists the destination lengths of the boundary grid for a packet.
+func c04Lengths(pkt *rtp.Packet) []int {
+	size, hsize := 0, 0
+	if try(func() { size = pkt.MarshalSize(); hsize = pkt.Header.MarshalSize() }) {
+		return []int{0, 12, 64}
+	}
+	return []int{0, hsize - 1, hsize, size - 1, size, size + 1, size + 7}
+}
+
+// caLegacyEmptyOK probes the tree under test once: does a legacy-profile header without an element
+// marshal without panicking (DESIGN §7 row 4 repaired)?  Only then are such headers generated.
+var (
+	caLegacyEmptyOnce  sync.Once
+	caLegacyEmptyValue bool
+)
+
+func caLegacyEmptyOK() bool {
+	caLegacyEmptyOnce.Do(func() {
+		caLegacyEmptyValue = !try(func() { h := rtp.Header{Extension: true, ExtensionProfile: 0x1234}; _, _ = h.Marshal() })
+	})
+	return caLegacyEmptyValue
+}
+
+// caGenPacketOdd draws a description outside C01's domain that the model still describes exactly
+// (never a legacy profile without an element: DESIGN §7 row 4 is another group's defect).
+func caGenPacketOdd(r *Rand, maxPayload int) *PacketIn {
+	p := genPacketWF(r, maxPayload)
+	n := 7
+	if caLegacyEmptyOK() {
+		n = 8
+	}
+	switch r.Intn(n) {
+	case 7: // legacy profile without an element (only on a tree where DESIGN §7 row 4 is repaired)
+		p.H.Extension = true
+		p.H.ExtensionProfile = uint16(r.Pick(0, 0x1234, 0xFFFF))
+		p.Exts = nil
+	case 0: // padding flag without a size
+		p.H.Padding = true
+		p.PadSize = 0
+	case 1: // size without the flag
+		p.H.Padding = false
+		p.PadSize = uint8(r.Range(1, 255))
+	case 2: // more CSRCs than the count field holds
+		p.H.CSRC = make([]uint32, r.Range(16, 40))
+		for i := range p.H.CSRC {
+			p.H.CSRC[i] = uint32(r.U64())
+		}
+	case 3: // legacy payload that is not whole words
+		p.H.Extension = true
+		p.H.ExtensionProfile = 0x4321
+		p.Exts = []ExtIn{{0, r.Bytes(r.Pick(1, 2, 3, 5, 6, 7, 9))}}
+	case 4: // one-byte elements with illegal ids / lengths
+		p.H.Extension = true
+		p.H.ExtensionProfile = 0xBEDE
+		p.Exts = nil
+		for i, n := 0, r.Range(1, 3); i < n; i++ {
+			p.Exts = append(p.Exts, ExtIn{uint8(r.Pick(0, 1, 14, 15, 16, 255)), r.Bytes(r.Pick(0, 1, 16, 17, 30))})
+		}
+	case 5: // two-byte elements with id 0 / oversized values
+		p.H.Extension = true
+		p.H.ExtensionProfile = 0x1000
+		p.Exts = nil
+		for i, n := 0, r.Range(1, 3); i < n; i++ {
+			p.Exts = append(p.Exts, ExtIn{uint8(r.Pick(0, 1, 255)), r.Bytes(r.Pick(0, 1, 255, 256, 300))})
+		}
+	case 6: // version / payload type out of range, elements present although X = 0
+		p.H.Version = uint8(r.Pick(4, 7, 255))
+		p.H.PayloadType = uint8(r.Range(128, 255))
+		if !p.H.Extension {
+			p.Exts = []ExtIn{{1, r.Bytes(2)}}
+		}
+	}
+	return p
+}
+
+func init() {
+	register("c04.to", "C04", func(x *Ctx) {
+		// boundary grid: profile x element lengths x payload x padding x destination length x prior contents
+		for kind := profNone; kind <= profLegacy; kind++ {
+			var elemSets [][]int
+			switch kind {
+			case profNone:
+				elemSets = [][]int{nil}
+			case profOne:
+				elemSets = [][]int{{}, {1}, {2}, {3}, {16}, {3, 16, 1}}
+			case profTwo:
+				elemSets = [][]int{{}, {0}, {1}, {2}, {255}, {1, 255, 0}}
+			case profLegacy:
+				elemSets = [][]int{{0}, {4}, {256}}
+			}
+			for _, lens := range elemSets {
+				for _, ncsrc := range []int{0, 15} {
+					for _, pl := range []int{0, 2, 5} {
+						for _, pad := range []int{0, 1, 4, 255} {
+							for li := 0; li < 7; li++ {
+								for fill := 0; fill < 4; fill++ {
+									kind, lens, ncsrc, pl, pad, li, fill := kind, lens, ncsrc, pl, pad, li, fill
+									x.Case(func(c *Case) {
+										p := &PacketIn{}
+										genFixed(c.R, &p.H)
+										p.H.CSRC = make([]uint32, ncsrc)
+										for i := range p.H.CSRC {
+											p.H.CSRC[i] = uint32(c.R.U64())
+										}
+										if kind != profNone {
+											p.H.Extension = true
+											switch kind {
+											case profOne:
+												p.H.ExtensionProfile = 0xBEDE
+											case profTwo:
+												p.H.ExtensionProfile = 0x1000
+											default:
+												p.H.ExtensionProfile = uint16(c.R.Pick(0, 0x1234, 0xFFFF))
+											}
+											for i, l := range lens {
+												id := uint8(i + 1)
+												if kind == profLegacy {
+													id = 0
+												}
+												p.Exts = append(p.Exts, ExtIn{id, c.R.Bytes(l)})
+											}
+										}
+										p.Payload = c.R.Bytes(pl)
+										if pad > 0 {
+											p.H.Padding = true
+											p.PadSize = uint8(pad)
+										}
+										tagPacket(c, p)
+										n := c04Lengths(p.Build())[li]
+										observeC04(c, p, caFillDst(c.R, n, fill))
+									})
+								}
+							}
+						}
+					}
+				}
+			}
+		}
+		// every destination length 0 … size+3 for a few dozen representative packets, dirty buffer
+		for rep := 0; rep < 48; rep++ {
+			for n := 0; n <= 90; n++ {
+				rep, n := rep, n
+				x.Case(func(c *Case) {
+					// the packet depends on `rep` only (its own PRNG), the destination on the case
+					r := newRand(x.Seed, "c04.to/rep", rep)
+					p := &PacketIn{}
+					genFixed(r, &p.H)
+					p.H.CSRC = make([]uint32, r.Pick(0, 1, 2))
+					kind := rep % 4
+					if kind != profNone {
+						p.H.Extension = true
+						p.H.ExtensionProfile, p.Exts = genExts(r, kind, 2)
+						for i := range p.Exts {
+							if len(p.Exts[i].Payload) > 8 {
+								p.Exts[i].Payload = p.Exts[i].Payload[:8]
+							}
+						}
+					}
+					p.Payload = r.Bytes(r.Intn(6))
+					if rep%3 != 0 {
+						p.H.Padding = true
+						p.PadSize = uint8(r.Range(1, 9))
+					}
+					size := p.Build().MarshalSize()
+					if n > size+3 {
+						c.Trivial()
+						n = size + 3
+					}
+					c.Tag("every-length")
+					tagPacket(c, p)
+					observeC04(c, p, caFillDst(c.R, n, c.R.Pick(1, 2, 3)))
+				})
+			}
+		}
+		maxPl := 1500
+		if x.Thorough() {
+			maxPl = 8000
+		}
+		for i, n := 0, x.N(150000, 1500000); i < n; i++ {
+			x.Case(func(c *Case) {
+				var p *PacketIn
+				if c.R.Chance(1, 10) {
+					p = caGenPacketOdd(c.R, 100)
+					c.Tag("odd")
+				} else {
+					p = genPacketWF(c.R, maxPl)
+					caWithDupes(c, p)
+				}
+				tagPacket(c, p)
+				ls := c04Lengths(p.Build())
+				var n int
+				switch c.R.Intn(4) {
+				case 0:
+					n = c.R.Intn(ls[4] + 17)
+				case 1:
+					n = ls[4] + c.R.Pick(-2, -1, 0, 1, 2, 3, 16, 100)
+				default:
+					n = ls[c.R.Intn(len(ls))]
+				}
+				observeC04(c, p, caFillDst(c.R, n, c.R.Intn(4)))
+			})
+		}
+	})
+}
+
+// ---------------------------------------------------------------------------------------------
+// C20 — Clone returns an equal, fully independent copy.
+
+// c20Nils describes where a value holds nil slices.
+type c20Nils struct {
+	csrc, payload, exts bool
+	extPl               []bool
+}
+
+func caNilsOfHeader(h *rtp.Header) c20Nils {
+	n := c20Nils{csrc: h.CSRC == nil, exts: h.Extensions == nil}
+	_, pls := rtp.VerifExtensions(h)
+	for _, p := range pls {
+		n.extPl = append(n.extPl, p == nil)
+	}
+	return n
+}
+
+func caWriteNils(t *Toks, n c20Nils, withPayload bool) {
+	t.Bool(n.csrc)
+	if withPayload {
+		t.Bool(n.payload)
+	}
+	t.Bool(n.exts)
+	t.Nat(len(n.extPl))
+	for _, b := range n.extPl {
+		t.Bool(b)
+	}
+}
+
+// caWriteSide writes what one value shows: the canonical packet observation and the raw profile field.
+func caWriteSide(t *Toks, p *rtp.Packet) {
+	writePacketObs(t, p)
+	t.Nat(int(p.Header.ExtensionProfile))
+}
+
+// caExtArrayBytes views the backing array of a []Extension (up to capacity) as bytes, for the
+// pointer-range overlap test.
+func caExtArrayBytes(es []rtp.Extension) []byte {
+	if cap(es) == 0 {
+		return nil
+	}
+	sz := int(unsafe.Sizeof(rtp.Extension{})) * cap(es)
+	return unsafe.Slice((*byte)(unsafe.Pointer(unsafe.SliceData(es))), sz)[:sz:sz]
+}
+
+func caCsrcBytes(cs []uint32) []byte {
+	if cap(cs) == 0 {
+		return nil
+	}
+	sz := 4 * cap(cs)
+	return unsafe.Slice((*byte)(unsafe.Pointer(unsafe.SliceData(cs))), sz)[:sz:sz]
+}
+
+// caByteSlicesOf lists every []byte reachable from a header (extension payloads) plus extra.
+func caByteSlicesOf(h *rtp.Header, extra ...[]byte) [][]byte {
+	_, pls := rtp.VerifExtensions(h)
+	return append(pls, extra...)
+}
+
+func caAnyOverlap(as, bs [][]byte) bool {
+	for _, a := range as {
+		for _, b := range bs {
+			if overlaps(a, b) {
+				return true
+			}
+		}
+	}
+	return false
+}
+
+// c20Mut is the single mutation applied after cloning.
+type c20Mut struct {
+	kind, a, b int
+	bs         []byte
+}
+
+func (m c20Mut) apply(p *rtp.Packet) {
+	switch m.kind {
+	case 1:
+		if m.a < len(p.Payload) {
+			p.Payload[m.a] ^= 0xFF
+		}
+	case 2:
+		if m.a < len(p.CSRC) {
+			p.CSRC[m.a] ^= 0xFFFFFFFF
+		}
+	case 3:
+		_, pls := rtp.VerifExtensions(&p.Header)
+		if m.a < len(pls) && m.b < len(pls[m.a]) {
+			pls[m.a][m.b] ^= 0xFF
+		}
+	case 4:
+		_ = p.Header.SetExtension(uint8(m.a), cloneBytes(m.bs))
+	case 5:
+		_ = p.Header.DelExtension(uint8(m.a))
+	}
+}
+
+// buildC20 builds the packet with the nil-ness the description asks for.
+func buildC20(in *PacketIn, extsNil bool) *rtp.Packet {
+	pkt := in.Build()
+	if len(in.Exts) == 0 && !extsNil {
+		pkt.Header.Extensions = []rtp.Extension{}
+	}
+	return pkt
+}
+
+func caMarshalTok(t *Toks, p *rtp.Packet) {
+	var bs []byte
+	var err error
+	if try(func() { bs, err = p.Marshal() }) {
+		t.Panic()
+	} else if writeRes(t, err) {
+		t.Bytes(bs)
+	}
+}
+
+// c20ViaWire makes the next observeC20 call build the original by decoding its own wire image
+// (every slice of such a packet is a window into ONE receive buffer — the usual situation when a
+// received packet is cloned).  Only used for well-formed descriptions.
+func caRebuildViaWire(orig *rtp.Packet) *rtp.Packet {
+	var wire []byte
+	var err error
+	if try(func() { wire, err = orig.Marshal() }) || err != nil {
+		return nil
+	}
+	q := &rtp.Packet{}
+	if try(func() { err = q.Unmarshal(wire) }) || err != nil {
+		return nil
+	}
+	if !orig.Header.Extension {
+		q.Header.ExtensionProfile = orig.Header.ExtensionProfile
+	}
+	return q
+}
+
+func observeC20(c *Case, in *PacketIn, extsNil bool, m c20Mut, onClone bool) {
+	observeC20x(c, in, extsNil, m, onClone, false)
+}
+
+func observeC20x(c *Case, in *PacketIn, extsNil bool, m c20Mut, onClone, viaWire bool) {
+	orig := buildC20(in, extsNil)
+	if viaWire {
+		if q := caRebuildViaWire(orig); q != nil {
+			orig = q
+			c.Tag("built=unmarshal")
+		}
+	}
+	orig.Header.PayloadOffset = c.R.Pick(0, 12, 16, c.R.Intn(2000)) // deprecated, but a header field: Clone must carry it
+	nils := caNilsOfHeader(&orig.Header)
+	nils.payload = orig.Payload == nil
+	writePacketIn(&c.I, in)
+	c.I.Nat(orig.Header.PayloadOffset)
+	caWriteNils(&c.I, nils, true)
+	c.I.Nat(m.kind).Nat(m.a).Nat(m.b).Bytes(m.bs).Bool(onClone)
+
+	caMarshalTok(&c.O, orig)
+	var clone *rtp.Packet
+	if try(func() { clone = orig.Clone() }) || clone == nil {
+		c.O.Tok("panic-Clone")
+		return
+	}
+	caWriteSide(&c.O, clone)
+	cn := caNilsOfHeader(&clone.Header)
+	cn.payload = clone.Payload == nil
+	caWriteNils(&c.O, cn, true)
+	c.O.Nat(clone.Header.PayloadOffset)
+	origBytes := caByteSlicesOf(&orig.Header, orig.Payload)
+	c.O.Bool(caAnyOverlap([][]byte{clone.Payload}, origBytes))
+	c.O.Bool(overlaps(caCsrcBytes(clone.CSRC), caCsrcBytes(orig.CSRC)))
+	c.O.Bool(overlaps(caExtArrayBytes(clone.Extensions), caExtArrayBytes(orig.Extensions)))
+	c.O.Bool(caAnyOverlap(caByteSlicesOf(&clone.Header), origBytes))
+
+	hc := orig.Header.Clone()
+	writeHeaderObs(&c.O, &hc)
+	c.O.Nat(int(hc.ExtensionProfile))
+	caWriteNils(&c.O, caNilsOfHeader(&hc), false)
+	c.O.Nat(hc.PayloadOffset)
+	c.O.Bool(overlaps(caCsrcBytes(hc.CSRC), caCsrcBytes(orig.CSRC)))
+	c.O.Bool(overlaps(caExtArrayBytes(hc.Extensions), caExtArrayBytes(orig.Extensions)))
+	c.O.Bool(caAnyOverlap(caByteSlicesOf(&hc), origBytes))
+
+	mutated, other := orig, clone
+	if onClone {
+		mutated, other = clone, orig
+	}
+	// (Marshal of the mutated side may fail or panic, e.g. after the only legacy element was deleted)
+	var before, after []byte
+	try(func() { b, _ := mutated.Marshal(); before = cloneBytes(b) })
+	try(func() { m.apply(mutated) })
+	after = []byte("panic")
+	try(func() { after, _ = mutated.Marshal() })
+	if !bytes.Equal(before, after) {
+		c.Tag("mutation-effective")
+	} else if m.kind != 0 {
+		c.Trivial() // the mutation had nothing to change (empty slice, absent id, rejected value)
+	}
+	caWriteSide(&c.O, other)
+	caMarshalTok(&c.O, other)
+	// the header clone taken before the mutation must not have moved either
+	writeHeaderObs(&c.O, &hc)
+	c.O.Nat(int(hc.ExtensionProfile))
+}
+
+// caGenMut draws a mutation that is usually effective on the given packet.
+func caGenMut(r *Rand, in *PacketIn, kind int) c20Mut {
+	m := c20Mut{kind: kind}
+	switch kind {
+	case 1:
+		m.a = r.Intn(len(in.Payload) + 1)
+		if len(in.Payload) > 0 && r.Chance(7, 8) {
+			m.a = r.Intn(len(in.Payload))
+		}
+	case 2:
+		m.a = r.Intn(len(in.H.CSRC) + 1)
+		if len(in.H.CSRC) > 0 && r.Chance(7, 8) {
+			m.a = r.Intn(len(in.H.CSRC))
+		}
+	case 3:
+		if len(in.Exts) > 0 {
+			m.a = r.Intn(len(in.Exts))
+			if l := len(in.Exts[m.a].Payload); l > 0 {
+				m.b = r.Intn(l)
+			}
+		}
+	case 4:
+		// replace an existing element's value (same length: stays legal for the profile), or add one
+		if len(in.Exts) > 0 && r.Chance(2, 3) {
+			e := in.Exts[r.Intn(len(in.Exts))]
+			m.a = int(e.ID)
+			m.bs = r.Bytes(len(e.Payload))
+		} else {
+			m.a = r.Range(1, 14)
+			m.bs = r.Bytes(r.Pick(1, 2, 4, 16))
+			if in.H.Extension && in.H.ExtensionProfile != 0xBEDE && in.H.ExtensionProfile != 0x1000 {
+				m.a = 0
+				m.bs = r.Bytes(4 * r.Range(0, 3))
+			}
+		}
+	case 5:
+		if len(in.Exts) > 0 && r.Chance(7, 8) {
+			m.a = int(in.Exts[r.Intn(len(in.Exts))].ID)
+		} else {
+			m.a = r.Intn(256)
+		}
+	}
+	return m
+}
+
+// caGenPacketFull draws a well-formed packet with every field populated.
+func caGenPacketFull(r *Rand, kind int) *PacketIn {
+	p := &PacketIn{}
+	genFixed(r, &p.H)
+	p.H.Marker = true
+	p.H.CSRC = make([]uint32, r.Pick(1, 2, 3, 15))
+	for i := range p.H.CSRC {
+		p.H.CSRC[i] = uint32(r.U64())
+	}
+	p.H.Extension = true
+	for len(p.Exts) == 0 {
+		p.H.ExtensionProfile, p.Exts = genExts(r, kind, 6)
+	}
+	if kind == profTwo {
+		for i := range p.Exts {
+			if len(p.Exts[i].Payload) == 0 {
+				p.Exts[i].Payload = r.Bytes(r.Range(1, 40))
+			}
+		}
+	}
+	if kind == profLegacy && len(p.Exts[0].Payload) == 0 {
+		p.Exts[0].Payload = r.Bytes(8)
+	}
+	p.Payload = r.Bytes(r.Range(1, 200))
+	p.H.Padding = true
+	p.PadSize = uint8(r.Pick(1, 2, 4, 255, r.Range(1, 255)))
+	return p
+}
+
+func init() {
+	register("c20.clone", "C20", func(x *Ctx) {
+		// grid: profile x mutation x side, every field populated
+		for kind := profOne; kind <= profLegacy; kind++ {
+			for mk := 0; mk <= 5; mk++ {
+				for side := 0; side < 2; side++ {
+					for rep := 0; rep < 8; rep++ {
+						kind, mk, side := kind, mk, side
+						x.Case(func(c *Case) {
+							p := caGenPacketFull(c.R, kind)
+							tagPacket(c, p)
+							c.Tag([]string{"mut=none", "mut=payload", "mut=csrc", "mut=extbyte", "mut=set", "mut=del"}[mk])
+							observeC20(c, p, false, caGenMut(c.R, p, mk), side == 1)
+						})
+					}
+				}
+			}
+		}
+		// nil / empty variants of CSRC, Payload, Extensions and element payloads
+		for v := 0; v < 32; v++ {
+			for side := 0; side < 2; side++ {
+				v, side := v, side
+				x.Case(func(c *Case) {
+					p := &PacketIn{}
+					genFixed(c.R, &p.H)
+					p.H.CSRC = nil
+					if v&1 != 0 {
+						p.H.CSRC = []uint32{}
+					}
+					p.Payload = nil
+					if v&2 != 0 {
+						p.Payload = []byte{}
+					}
+					extsNil := v&4 == 0
+					if v&8 != 0 {
+						p.H.Extension = true
+						p.H.ExtensionProfile = 0x1000
+						if v&16 != 0 {
+							extsNil = false
+							p.Exts = []ExtIn{{7, nil}, {9, []byte{}}, {11, c.R.Bytes(3)}}
+						}
+					} else if v&16 != 0 {
+						p.H.ExtensionProfile = uint16(c.R.Intn(65536)) // not observable through the encoder, copied by Clone
+					}
+					c.Tag("nil-variants")
+					observeC20(c, p, extsNil, caGenMut(c.R, p, c.R.Intn(6)), side == 1)
+				})
+			}
+		}
+		for i, n := 0, x.N(100000, 1500000); i < n; i++ {
+			x.Case(func(c *Case) {
+				var p *PacketIn
+				switch c.R.Intn(10) {
+				case 0:
+					p = caGenPacketOdd(c.R, 60)
+					c.Tag("odd")
+				case 1, 2, 3:
+					p = genPacketWF(c.R, 300)
+				default:
+					p = caGenPacketFull(c.R, c.R.Pick(profOne, profTwo, profLegacy))
+				}
+				wf := !caTagged(c, "odd")
+				// now and then a payload beyond the usual allocation size classes
+				if c.R.Chance(1, 25) {
+					if x.Thorough() {
+						p.Payload = c.R.Bytes(c.R.Pick(1024, 4096, 9000, c.R.Range(1025, 20000)))
+					} else {
+						p.Payload = c.R.Bytes(c.R.Pick(1024, 1500, c.R.Range(1025, 2048)))
+					}
+					c.Tag("payload=large")
+				}
+				if !p.H.Extension && c.R.Bool() {
+					p.H.ExtensionProfile = uint16(c.R.Intn(65536))
+				}
+				caWithDupes(c, p)
+				tagPacket(c, p)
+				mk := c.R.Intn(6)
+				c.Tag([]string{"mut=none", "mut=payload", "mut=csrc", "mut=extbyte", "mut=set", "mut=del"}[mk])
+				observeC20x(c, p, c.R.Bool(), caGenMut(c.R, p, mk), c.R.Bool(), wf && c.R.Chance(1, 3))
 			})
 		}
 	})
